@@ -97,7 +97,12 @@ def gen(rng, idx, tier):
         elif k < 0.35:
             cfg["include_pgns"] = sorted({e["f"][0] for e in ev if e["k"] != "claim"})[:rng.randrange(1, 6)] + ([60928] if rng.random() < 0.5 else [])
         listeners.append(cfg)
-    return {"format": rng.choice(["ebyte", "usb", "yd", "plain"]), "events": ev, "listeners": listeners, "clock": mode}
+    # the gateway's own line timestamps are unrelated to the decoder's wall clock (recorded logs, device uptime):
+    # they must not influence admission
+    stamp = rng.choice(["2022-09-28-11:36:59.668", "2035-01-01-00:00:00.000", "2024-01-01-00:00:01.000", "2024-01-01-00:20:00.000",
+                        "1999-12-31-23:59:59.999"])
+    return {"format": rng.choice(["ebyte", "usb", "yd", "plain", "plain"]), "events": ev, "listeners": listeners, "clock": mode,
+            "stamp": stamp}
 
 
 def _claim_identity(fr):
@@ -159,10 +164,10 @@ def execute(plan):
                 open_fast[key] = True
             if e["i"] == e["n"] - 1:
                 open_fast.pop(key, None)
-        u, _ = bus.feed_frame(U, fmt, fr)
+        u, _ = bus.feed_frame(U, fmt, fr, plan.get("stamp"))
         near_boundary = abs(t - WINDOW) < 0.001
         for li, (d, cfg) in enumerate(zip(ls, plan["listeners"])):
-            r, exc = bus.feed_frame(d, fmt, fr)
+            r, exc = bus.feed_frame(d, fmt, fr, plan.get("stamp"))
             ident = latest.get(src)
             bnm = bool(cfg.get("build_network_map"))
             # admissibility of a non-claim message from src at this instant
